@@ -417,3 +417,47 @@ func (w *World) MustIface(pkgPath, name string) (*types.Interface, error) {
 	}
 	return it, nil
 }
+
+// PreferredCallee resolves a call to a single in-scope function when that is justified: a
+// unique CHA target, or — for an interface declared in a module's package that several keepers
+// happen to satisfy structurally — the unique target belonging to the same module as the
+// interface (the wiring rule A5.keeper-wiring checks that this is what the app passes in).
+func (w *World) PreferredCallee(c ssa.CallInstruction) *ssa.Function {
+	ts := w.CalleesOf(c)
+	if len(ts) == 1 {
+		return ts[0]
+	}
+	cc := c.Common()
+	if len(ts) < 2 || !cc.IsInvoke() {
+		return nil
+	}
+	named := namedOf(cc.Value.Type())
+	if named == nil || named.Obj().Pkg() == nil {
+		return nil
+	}
+	m := moduleOfPath(named.Obj().Pkg().Path())
+	if m == "" {
+		return nil
+	}
+	var pick *ssa.Function
+	for _, t := range ts {
+		if pk := FnPkg(t); pk != nil && moduleOfPath(pk.Path()) == m {
+			if pick != nil {
+				return nil
+			}
+			pick = t
+		}
+	}
+	return pick
+}
+
+func moduleOfPath(path string) string {
+	rel := RelPkg(path)
+	if strings.HasPrefix(rel, "x/") {
+		parts := strings.Split(rel, "/")
+		if len(parts) >= 2 {
+			return parts[1]
+		}
+	}
+	return ""
+}
